@@ -703,6 +703,18 @@ func (r *runner) txNontrivial(sc *Script, committed kv, tm *txModel) {
 // ---------------------------------------------------------------------------------------
 // operations
 
+// blockFeature is the strongest feature class among the succeeding commands of a block.
+func blockFeature(blk *Block) string {
+	rank := map[string]int{"plain": 0, "ctx-restore": 1, "ctx-restore+held-view": 2, "store-level-restore": 3}
+	best := "plain"
+	for _, sc := range blk.Txs {
+		if f := sc.feature(); !sc.Fail && rank[f] > rank[best] {
+			best = f
+		}
+	}
+	return best
+}
+
 func (r *runner) top() tip { return r.chain[len(r.chain)-1] }
 
 // runBlock executes and commits one block on top of the application's tip.
@@ -745,6 +757,13 @@ func (r *runner) runBlock(blk *Block) bool {
 	// after Commit
 	r.checkRoot("commit", res.root, res.staged, ghostFor(prev, res.staged))
 	if d := r.dump(0); !d.equal(res.staged) {
+		// a divergence of the staged state can escape the per-transaction root comparison when
+		// the differing leaf coincides with a leaf left behind by an earlier deletion; if the
+		// block used stale-view features the failure is the same one, observed later
+		if f := blockFeature(blk); f == "store-level-restore" || f == "ctx-restore+held-view" {
+			r.stagedViolation("exec-ok", f, "state DB dump after Commit", res.staged, d, nil)
+			return false
+		}
 		r.violate("commit:state-db-differs-from-staged-state", "after Commit the state DB (prefix 0) is not the state the block produced", map[string]any{"diff": res.staged.diff(d)})
 		r.abort("commit state")
 		return false
